@@ -247,7 +247,7 @@ def gen_key(rng, fmt_choices=KEYFORMATS):
     if f is not None:
         pairs.append(("KEYFORMAT", q(f)))
     if rng.random() < 0.3:
-        pairs.append(("KEYFORMATVERSIONS", q("/".join(str(rng.choice([1, 2, 5, 255])) for _ in range(rng.randint(1, 4))))))
+        pairs.append(("KEYFORMATVERSIONS", q("/".join(str(rng.choice([1, 2, 5, 255, 0, 1])) for _ in range(rng.randint(1, 4))))))
     return pairs
 
 
